@@ -390,6 +390,17 @@ where
         )
     }
 
+    /// Verification hook (compiled only with `--cfg poster_verif`): records that the connection
+    /// was lost `secs_ago` seconds ago, which production code never does on its own, so that the
+    /// session-resumption path of [run](Context::run) becomes reachable.
+    ///
+    #[cfg(poster_verif)]
+    #[doc(hidden)]
+    pub fn verif_mark_disconnected(&mut self, secs_ago: u64) {
+        self.connection.disconnection_timestamp =
+            SystemTime::now().checked_sub(std::time::Duration::from_secs(secs_ago));
+    }
+
     /// Sets up communication primitives for the context. This is the first method
     /// to call when starting the connection with the broker.
     ///
